@@ -5,6 +5,7 @@
 //   w:   sin sin cos | cos(t)     p: cos sin cos | cos(t)
 #pragma once
 #include "oracle.hpp"
+#include <cstring>
 namespace orc {
 inline J roy_field(const Ctx& c, const std::string& f, const char* pat /* e.g. "scs" */, char tpat, int dim, int it) {
   static const char* ax[3] = {"x", "y", "z"};
@@ -38,5 +39,26 @@ inline void roy_draw(vh::Rng& r, Draw& d, const std::vector<std::string>& names)
       if (f == "rho" || f == "p") d.set(n, sum[f] + r.uni(0.3L, 2.0L));   // rho > 0, p > 0
       else d.set(n, amp(r));
     }
+}
+// a coordinate on a node / extremum of one sine-cosine mode: a_{f i} pi x_i / L = m pi / 2, i.e. x_i = m L / (2 a_{f i})
+inline void roy_nodal(vh::Rng& r, const std::map<std::string, long double>& P, long double* xs, int n) {
+  std::vector<std::pair<std::string, int>> modes;   // (wave-number name, coordinate index)
+  static const char* ax = "xyz";
+  for (auto& kv : P) {
+    const std::string& k = kv.first;
+    if (k.rfind("a_", 0) != 0 || k.size() < 4 || kv.second == 0) continue;
+    char c = k.back();
+    const char* q = strchr(ax, c);
+    int ci = q ? (int)(q - ax) : (c == 't' ? n - 1 : (c == 'r' ? 0 : -1));
+    if (c == 'z' && P.count("a_ur")) ci = 1;          // axisymmetric solutions: (r, z[, t])
+    if (ci >= 0 && ci < n) modes.push_back({k, ci});
+  }
+  auto L = P.find("L");
+  if (modes.empty() || L == P.end()) return;
+  auto& m = modes[(size_t)r.below((int)modes.size())];
+  long double mm = (long double)(r.below(13) - 6);
+  long double x = mm * L->second / (2 * P.at(m.first));
+  if (m.second == 0 && P.count("a_ur") && !(x > 0)) return;   // r > 0
+  xs[m.second] = x;
 }
 }  // namespace orc
